@@ -34,7 +34,13 @@ where
             .try_into()
             .map_err(|err: NodePathError| StorageError::Other(err.to_string()))?;
         let child_metadata =
-            Node::async_get_metadata(storage, &path, &MetadataRetrieveVersion::Default).await?;
+            match Node::async_get_metadata(storage, &path, &MetadataRetrieveVersion::Default).await
+            {
+                Ok(metadata) => metadata,
+                // A prefix without metadata is not a node (e.g. chunks left by an array whose metadata was erased)
+                Err(NodeCreateError::MissingMetadata) => continue,
+                Err(err) => return Err(err),
+            };
 
         let children = if recursive {
             match child_metadata {
